@@ -32,6 +32,7 @@ import (
 	"github.com/moov-io/iso8583/field"
 	"github.com/moov-io/iso8583/padding"
 	"github.com/moov-io/iso8583/prefix"
+	"github.com/moov-io/iso8583/sort"
 	"github.com/moov-io/iso8583/specs"
 
 	"verif/harness/gen"
@@ -368,10 +369,23 @@ func generatedDescribeSpec(r *gen.Rng) *iso8583.MessageSpec {
 		}
 	}
 	return &iso8583.MessageSpec{Name: "generated", Fields: map[int]field.Field{
-		0:  field.NewString(&field.Spec{Length: 4, Description: "MTI", Enc: encoding.ASCII, Pref: prefix.ASCII.Fixed}),
-		1:  field.NewBitmap(&field.Spec{Length: 8, Description: "Bitmap", Enc: encoding.Binary, Pref: prefix.Binary.Fixed}),
-		2:  field.NewString(&field.Spec{Length: 19, Description: "Primary Account Number", Enc: panEnc, Pref: panPref}),
+		0: field.NewString(&field.Spec{Length: 4, Description: "MTI", Enc: encoding.ASCII, Pref: prefix.ASCII.Fixed}),
+		1: field.NewBitmap(&field.Spec{Length: 8, Description: "Bitmap", Enc: encoding.Binary, Pref: prefix.Binary.Fixed}),
+		2: field.NewString(&field.Spec{Length: 19, Description: "Primary Account Number", Enc: panEnc, Pref: panPref}),
+		// composites before and between the sensitive fields: describing them must not change how the
+		// fields after them are filtered
+		3: field.NewComposite(&field.Spec{Length: 6, Description: "Processing Code", Pref: prefix.ASCII.Fixed, Tag: &field.TagSpec{Sort: sort.StringsByInt},
+			Subfields: map[string]field.Field{
+				"1": field.NewString(&field.Spec{Length: 2, Description: "Transaction Type", Enc: encoding.ASCII, Pref: prefix.ASCII.Fixed}),
+				"2": field.NewString(&field.Spec{Length: 2, Description: "From Account", Enc: encoding.ASCII, Pref: prefix.ASCII.Fixed}),
+				"3": field.NewString(&field.Spec{Length: 2, Description: "To Account", Enc: encoding.ASCII, Pref: prefix.ASCII.Fixed}),
+			}}),
 		20: field.NewString(&field.Spec{Length: 19, Description: "PAN Extended", Enc: encoding.ASCII, Pref: prefix.ASCII.LL}),
+		40: field.NewComposite(&field.Spec{Length: 30, Description: "Additional", Pref: prefix.ASCII.LL, Tag: &field.TagSpec{Length: 2, Enc: encoding.ASCII, Sort: sort.StringsByInt},
+			Subfields: map[string]field.Field{
+				"01": field.NewString(&field.Spec{Length: 9, Description: "A", Enc: encoding.ASCII, Pref: prefix.ASCII.LL}),
+				"02": field.NewString(&field.Spec{Length: 9, Description: "B", Enc: encoding.ASCII, Pref: prefix.ASCII.LL}),
+			}}),
 		35: field.NewTrack2(t2),
 		36: field.NewTrack3(&field.Spec{Length: 104, Description: "Track 3 Data", Enc: encoding.ASCII, Pref: prefix.ASCII.LLL}),
 		45: field.NewTrack1(&field.Spec{Length: 76, Description: "Track 1 Data", Enc: encoding.ASCII, Pref: prefix.ASCII.LL}),
@@ -444,6 +458,10 @@ func runDescribe(t gen.Tier, r *gen.Rng, seed uint64, rep *Reporter) {
 			if !ok {
 				rep.Case("")
 				return
+			}
+			if _, has := dc.spec.Fields[3].(*field.Composite); has && dc.name == "generated" && i%3 != 0 {
+				_ = m.Field(3, "001020")
+				_ = m.Field(40, "0102AB0201C")
 			}
 			// half of the time describe the message as a receiver sees it (after Pack → Unpack)
 			if i%2 == 1 && dc.name != "Spec87" && dc.name != "Spec87ASCII" && dc.name != "Spec87Hex" {
